@@ -263,6 +263,25 @@ func runCvss(r *hx.Run, g *gen, cfg hx.Config, tables map[string][][2]string, id
 										if n%7 == 0 {
 											arg += "/E:P/RL:O/RC:C" // temporal metrics are ignored by fromCVSS3
 										}
+										if n%3 == 0 {
+											// The specification allows the metrics in any order (the order
+											// above is only the preferred one): same vector, same score, so
+											// the same documented severity. Only orders the library's own
+											// parser accepts with the same score are used.
+											parts := strings.Split(arg, "/")
+											ms := parts[1:]
+											for x := len(ms) - 1; x > 0; x-- {
+												y := g.r.Intn(x + 1)
+												ms[x], ms[y] = ms[y], ms[x]
+											}
+											perm := parts[0] + "/" + strings.Join(ms, "/")
+											if pv, perr := cvss.ParseV3(perm); perr == nil && err == nil && pv.Score() == sc {
+												arg = perm
+												r.Count("cvss:v3:permuted-order")
+											} else {
+												r.Count("cvss:v3:permuted-order-not-accepted")
+											}
+										}
 										one("v3", arg, sc, err, func(x string) (claircore.Severity, error) { return osv.FromCVSS3ForVerif(ctx, x) })
 									}
 								}
